@@ -48,12 +48,12 @@ def setup(common=None):
             # custom atoms: power-of-two scales (exact float arithmetic); `xst` = 15 degrees = pi/12 rad
             if n in reg.lut:
                 raise RuntimeError("custom atom collides with a unyt symbol: " + n)
-            reg.add(n, float(s) * (math.pi / 180.0) if g == 3 else float(s), dims[g])
+            reg.add(n, float(s) * (math.pi / 180.0) if g == 3 else float(s), dims[g] if g != 5 else dimensions.length / dimensions.time)
     from unyt.unit_object import Unit
 
     atoms = [Unit(n, registry=reg) for n in names]
     keys = [str(a.expr) for a in atoms]
-    _U.update(unyt=unyt, reg=reg, names=names, grp=grp, mscale=mscale, idx={k: i for i, k in enumerate(keys)}, ua=unyt.unyt_array, uq=unyt.unyt_quantity, dims=dims, rad=names.index("radian"))
+    _U.update(unyt=unyt, reg=reg, names=names, pv=pv, grp=grp, mscale=mscale, idx={k: i for i, k in enumerate(keys)}, ua=unyt.unyt_array, uq=unyt.unyt_quantity, dims=dims, rad=names.index("radian"))
     _U["rscale"] = [float(a.base_value) for a in atoms]
     _U["rdim"] = [a.dimensions for a in atoms]
 
@@ -63,24 +63,34 @@ def _unit_str(u):
     parts = []
     for n, e in zip(_U["names"], u):
         if e:
-            assert e % 6 == 0
-            parts.append(f"{n}**{e // 6}")
+            parts.append(f"{n}**{e // 6}" if e % 6 == 0 else f"{n}**({e // 3}/2)" if e % 3 == 0 else f"{n}**({e // 2}/3)")
     return "*".join(parts) if parts else "dimensionless"
 
 
 def _mscale(u):
     """model scale of a unit vector: Fraction when rational, else float"""
-    if all(e % 6 == 0 for e in u):
-        s = Fraction(1)
-        for m, e in zip(_U["mscale"], u):
-            if e:
-                s *= m ** (e // 6)
-        return s
-    s = 1.0
-    for m, e in zip(_U["mscale"], u):
-        if e:
-            s *= float(m) ** (e / 6.0)
-    return s
+    r = _mratio(u, [0] * len(u))
+    return r
+
+
+def _mratio(ua, ub):
+    """model scale(ua) / scale(ub): exact Fraction when the prime exponents come out integral, else float"""
+    primes = [2, 3, 5, 127]
+    ex = [0, 0, 0, 0]
+    for ea, eb, pv in zip(ua, ub, _U["pv"]):
+        d = ea - eb
+        if d:
+            for k in range(4):
+                ex[k] += d * pv[k]
+    if all(e % 6 == 0 for e in ex):
+        r = Fraction(1)
+        for p, e in zip(primes, ex):
+            r *= Fraction(p) ** (e // 6)
+        return r
+    r = 1.0
+    for p, e in zip(primes, ex):
+        r *= float(p) ** (e / 6.0)
+    return r
 
 
 def _unit_vec(units):
@@ -159,8 +169,7 @@ def _project(x, model, magnitude):
         if mu == vec:
             factor = Fraction(1)
         else:
-            a, b = _mscale(mu), _mscale(vec)
-            factor = a / b
+            factor = _mratio(mu, vec)
     for j, xv in enumerate(vals):
         cands = []
         if factor is not None and j < len(model["v"]):
